@@ -84,9 +84,9 @@ CLAIM = {
     "design_ref": "DESIGN.md §4 C05, §5 rows 6-8",
 }
 
-BUDGET = {"quick": 260, "thorough": 2600, "search": 2500}
+BUDGET = {"quick": 140, "thorough": 2600, "search": 2500}
 MAX_FAILURES = 30      # a verdict exists: stop generating (bounds the run time under a grossly broken cache)
-RUNOPS_BUDGET = {"quick": 300, "thorough": 6000, "search": 6000}
+RUNOPS_BUDGET = {"quick": 200, "thorough": 6000, "search": 6000}
 T2_PAYLOAD_BASE = {"q", "exact_recent_days", "sim_threshold", "clusters_top_m", "owner_scope", "owner", "k_retrieval", "now",
                    "ranking", "residual_cap", "k_surface"}
 
@@ -108,10 +108,38 @@ def _pub(raw: dict) -> dict:
     return {k: v for k, v in raw.items() if not k.startswith("_")}
 
 
+LAST_TRACE: list = [[]]     # version components / content codes after every op of the last `run_pair`
+
+
+def version_violation(trace: List[dict]) -> Optional[Tuple[str, str]]:
+    """After EVERY op of a history (both runs): (a) one graph etag never stands for two different T1-visible contents
+    (ordered nodes/edges, exact float weights) — across all states of the process, the T1 cache being process-global;
+    (b) within one index object, one index_version never stands for two different T2-visible memory contents."""
+    by_etag: Dict[str, set] = {}
+    by_ver: Dict[Tuple[int, int], set] = {}
+    for r in trace:
+        if "etag" in r:
+            by_etag.setdefault(r["etag"], set()).add(r["graph"])
+        if "ver" in r:
+            by_ver.setdefault((r["w"], r["ver"]), set()).add(r["index"])
+    for et, gs in sorted(by_etag.items()):
+        if len(gs) > 1:
+            return ("etag", f"store etag {et} stands for {len(gs)} different graph contents (ordered nodes/edges, exact "
+                            f"weights) within one history")
+    for (w, v), cs in sorted(by_ver.items()):
+        if len(cs) > 1:
+            return ("index", f"index_version {v} of state {w}'s memory index stands for {len(cs)} different memory contents "
+                             f"within one history")
+    return None
+
+
 def run_pair(ctx: Ctx, case: dict) -> Tuple[List[dict], List[dict], Optional[dict]]:
     hc = D.to_hist_case(case)
-    on = H.run_history(ctx.tmpdir("c05on"), hc, True)
-    off = H.run_history(ctx.tmpdir("c05off"), hc, False)
+    tr_on: list = []
+    tr_off: list = []
+    on = H.run_history(ctx.tmpdir("c05on"), hc, True, trace=tr_on)
+    off = H.run_history(ctx.tmpdir("c05off"), hc, False, trace=tr_off)
+    LAST_TRACE[:] = [tr_on + tr_off]
     return on, off, H.first_divergence(on, off)
 
 
@@ -305,6 +333,7 @@ def shrink(ctx: Ctx, case: dict, div: dict, limit: int = 60) -> dict:
 def process(ctx: Ctx, comp: str, case: dict, batch: Batch, etags: Tuple[dict, dict], do_shrink: bool = True) -> None:
     try:
         on, off, div = run_pair(ctx, case)
+        trace = list(LAST_TRACE[0])
     except H.TR.RigError as e:
         raise core.Infra(f"rig error: {e}")
     ctx.record_case(comp, case, _tags(case, on, off))
@@ -320,8 +349,11 @@ def process(ctx: Ctx, comp: str, case: dict, batch: Batch, etags: Tuple[dict, di
     add_suff(case, off, batch)
     bad = etag_violation(on, off)
     etags[0]["n"] = etags[0].get("n", 0) + 1
-    if bad:
-        ctx.monitor_fail("etag", "etag_faithful", case, bad, None, key="C05:etag:faithful")
+    vv = version_violation(trace)
+    if bad or (vv and vv[0] == "etag"):
+        ctx.monitor_fail("etag", "etag_faithful", case, bad or vv[1], None, key="C05:etag:faithful")
+    if vv and vv[0] == "index":
+        ctx.monitor_fail("index", "index_version_faithful", case, vv[1], None, key="C05:index:version_faithful")
 
 
 def finish_batch(ctx: Ctx, batch: Batch) -> None:
@@ -475,7 +507,7 @@ def run_runops(ctx: Ctx) -> None:
 # ------------------------------------------------------------------------------------------------
 # entry points
 # ------------------------------------------------------------------------------------------------
-COMPONENTS = ["sweep", "hist", "keys", "suff", "etag", "runops"]
+COMPONENTS = ["sweep", "hist", "keys", "suff", "etag", "index", "runops"]
 
 
 def _malformed(rng: random.Random, case: dict) -> dict:
@@ -501,7 +533,7 @@ def run(ctx: Ctx) -> None:
     if ctx.tier != "search":
         for case in ctx.load_corpus("hist"):
             process(ctx, "hist", case, batch, etags)
-        for case in D.sweep_cases():
+        for case in D.sweep_cases(full=(ctx.tier != "quick")):
             process(ctx, "sweep", case, batch, etags, do_shrink=False)     # already minimal
     n = int(BUDGET.get(ctx.tier, 260) * ctx.budget_scale)
     rng = ctx.rng_for("hist" if ctx.tier != "search" else "hist-search")
@@ -547,8 +579,12 @@ def replay(ctx: Ctx, rec: dict) -> int:
         else:
             print(f"REPLAY component={comp} differential agrees ({len(on)} turns)")
         bad = etag_violation(on, off)
-        if bad:
-            print(f"REPLAY monitor etag_faithful FAILS: {bad}")
+        vv = version_violation(LAST_TRACE[0])
+        if bad or (vv and vv[0] == "etag"):
+            print(f"REPLAY monitor etag_faithful FAILS: {bad or vv[1]}")
+            rc = 1
+        if vv and vv[0] == "index":
+            print(f"REPLAY monitor index_version_faithful FAILS: {vv[1]}")
             rc = 1
         batch = Batch()
         for d in check_keys(case, on, batch):
